@@ -53,10 +53,11 @@ def compare_objects(want, got, tol_fn):
     for key in gw:
         for (tw, lw), (tg, lg) in zip(gw[key], gg[key]):
             if abs(tw - tg) > tol_fn(tw):
-                return "time", f"{key[0]} on column {key[1]}: expected at {tw} ms, got {tg} ms (tolerance {tol_fn(tw):.3g})"
+                return "time", f"{key[0]} on column {key[1]}: expected at {tw} ms, got {tg} ms (tolerance {tol_fn(tw):.3g})", abs(tw - tg) / max(tol_fn(tw), 1e-12)
             if lw is not None:
                 if abs((tw + lw) - (tg + lg)) > tol_fn(tw + lw):
-                    return "time", f"{key[0]} on column {key[1]} at {tw} ms: expected end {tw + lw} ms, got {tg + lg} ms"
+                    return ("time", f"{key[0]} on column {key[1]} at {tw} ms: expected end {tw + lw} ms, got {tg + lg} ms (tolerance {tol_fn(tw + lw):.3g})",
+                            abs((tw + lw) - (tg + lg)) / max(tol_fn(tw + lw), 1e-12))
     return None
 
 
@@ -366,8 +367,13 @@ def judge_write(ctx, args, kwargs, result, exc, pre):
         got = rsm.chart_objects_ms(den, ch)
         bad = compare_objects(want, got, tol_fn)
         if bad:
+            f2 = feat
+            if bad[0] == "time" and not on_measure:
+                from fractions import Fraction as _F
+                f2 = dict(feat, tempo_change_finer_than_48th_beat=any((_F(b) * 48).denominator != 1 for b in beats),
+                          error_within_one_and_a_half_grid_steps=bool(len(bad) > 2 and bad[2] <= 1.5))
             return ctx.violate("C03", "sm.write", bad[0] if bad[0] == "objects" else ("time_exact" if on_measure else "time_within_grid"),
-                               f"chart {ci}: {bad[1]} [memory vs file]", wit, feat)
+                               f"chart {ci}: {bad[1]} [memory vs file]", wit, f2)
     if short_rows:
         ctx.counters["sm.write|short_rows_tolerated"] += short_rows
     ctx.held("sm.write", "time_exact" if on_measure else "time_within_grid", len(ms.maps))
